@@ -7,10 +7,15 @@
 
 static qb_ringbuffer_t *rb = NULL;
 static int serial = 0;
+/* two-phase write: pointer and length of the pending qb_rb_chunk_alloc, if any */
+static void *pend_ptr = NULL;
+static size_t pend_len = 0;
+static int pending = 0;
 
 static void rb_drop(void)
 {
 	if (rb) { qb_rb_close(rb); rb = NULL; }
+	pending = 0;
 }
 
 int main(void)
@@ -32,6 +37,26 @@ int main(void)
 			if (!rb) printf("%s\n", vl_errname(errno));
 			else printf("ok %u\n", rb->shared_hdr->word_size);
 		} else if (!rb) {
+			printf("bad-op\n");
+		} else if (strcmp(t[0], "alloc") == 0 && nt == 2) {
+			/* a second alloc while one is pending is not executed (ill-formed use) */
+			if (pending) { printf("bad-op\n"); continue; }
+			size_t n = strtoull(t[1], NULL, 10);
+			errno = 0;
+			void *p = qb_rb_chunk_alloc(rb, n);
+			if (!p) printf("%s\n", vl_errname(errno));
+			else { pend_ptr = p; pend_len = n; pending = 1; printf("ok\n"); }
+		} else if (strcmp(t[0], "commit") == 0 && nt == 2) {
+			size_t len; unsigned char *b = vl_unhex(t[1], &len);
+			/* commit without a pending alloc, or of more than was allocated: not executed */
+			if (!pending || len > pend_len) { printf("bad-op\n"); free(b); continue; }
+			memcpy(pend_ptr, b, len);
+			int32_t rc = qb_rb_chunk_commit(rb, len);
+			pending = 0;
+			if (rc < 0) printf("%s\n", vl_errname((int)rc)); else printf("%d\n", (int)rc);
+			free(b);
+		} else if (strcmp(t[0], "write") == 0 && nt == 2 && pending) {
+			/* write while an allocation is pending: not executed (ill-formed use) */
 			printf("bad-op\n");
 		} else if (strcmp(t[0], "write") == 0 && nt == 2) {
 			size_t len; unsigned char *b = vl_unhex(t[1], &len);
